@@ -100,6 +100,12 @@ def main():
                    "broker timestamp -1 or given; log_start_offset absent or given; plain and gzip; every future checked against the "
                    "position of its own record in the bytes built",
           "failures": fails, "replay": {"script": REPLAY}})
+    from bounded import C01 as _C01
+    n, fails = _C01.classification()
+    emit({"name": "produce-error-classification", "exhaustive": True, "cases": n, "distinct_nontrivial": n,
+          "bound": "the error codes a Produce response can carry: retriable flag of the class errors.for_code() maps each to, "
+                   "against the Java client's classification (shared with C01)",
+          "failures": fails, "replay": {"script": _C01.REPLAY}})
     n, fails = produce_pairing()
     emit({"name": "produce-reply-decoded-with-the-requests-own-version", "exhaustive": True, "cases": n, "distinct_nontrivial": n,
           "bound": "every ProduceRequest struct version: RESPONSE_TYPE has the request's API key and the schema of the "
